@@ -343,11 +343,34 @@ def rangeMem (lo hi : Bound) (desc : Bool) (keys : List Val) (ps pe i j : Nat) :
     lo.rangeLoOK (normKey desc (keys.getD i none)) (normKey desc (keys.getD j none)) &&
     hi.rangeHiOK (normKey desc (keys.getD i none)) (normKey desc (keys.getD j none))
 
-/-- Spec of the default frame with ORDER BY (RANGE UNBOUNDED PRECEDING .. CURRENT ROW with peers
-taken on *all* order keys): rows not after the current row in the window order. -/
-def defaultMem (ks : List OrdKey) (buf : List Row) (ps pe i j : Nat) : Bool :=
+def Bound.isOffset : Bound → Bool
+  | .prec _ => true
+  | .foll _ => true
+  | _ => false
+
+/-- Spec of RANGE frames whose bounds are only UNBOUNDED / CURRENT ROW, for any number of order
+keys: CURRENT ROW stands for the whole peer group, peers being the rows equal on *all* ORDER BY
+expressions (`c` = window-order comparison of row `j` with the current row). -/
+def Bound.peerLoOK (b : Bound) (c : Int) : Bool :=
+  match b with
+  | .up => true
+  | .cur => c ≥ 0
+  | _ => false
+
+def Bound.peerHiOK (b : Bound) (c : Int) : Bool :=
+  match b with
+  | .uf => true
+  | .cur => c ≤ 0
+  | _ => false
+
+def peerMem (lo hi : Bound) (ks : List OrdKey) (buf : List Row) (ps pe i j : Nat) : Bool :=
   decide (ps ≤ j) && decide (j < pe) &&
-    decide (compareRows ks (buf.getD j default) (buf.getD i default) ≤ 0)
+    lo.peerLoOK (compareRows ks (buf.getD j default) (buf.getD i default)) &&
+    hi.peerHiOK (compareRows ks (buf.getD j default) (buf.getD i default))
+
+/-- Spec of the default frame with ORDER BY: RANGE UNBOUNDED PRECEDING .. CURRENT ROW. -/
+def defaultMem (ks : List OrdKey) (buf : List Row) (ps pe i j : Nat) : Bool :=
+  peerMem .up .cur ks buf ps pe i j
 
 /-! ## Impl: `PeerGroupFramer` -/
 
@@ -651,7 +674,7 @@ def implPartition (q : Query) (buf : List Row) (ps pe : Nat) (st : ImplState) : 
   | .agg f =>
     let ivs := (q.framer f).intervals (q.rangeKeys buf) ps pe
     (allSome (ivs.map fun (s, e) => aggCompute f xs ps s e), st)
-  | .rowNumber => (some ((List.range n).map fun i => Res.int (i + 1)), st)
+  | .rowNumber => (some ((List.range n).map fun (i : Nat) => Res.int ((i : Int) + 1)), st)
   | .rank =>
     let ivs := peerIntervals (q.ord.map (·.col)) buf ps pe
     (some ((ivs.zip (List.range n)).map fun ((s, e), i) =>
@@ -674,7 +697,7 @@ def implPartition (q : Query) (buf : List Row) (ps pe : Nat) (st : ImplState) : 
     (some out, { st with dense := ds })
   | .ntile k =>
     let s0 := ntileStart st.nt n k
-    (some ((ntileRun n s0).map fun b => Res.int b), { st with nt := ntileAfter n s0 })
+    (some ((ntileRun n s0).map fun (b : Nat) => Res.int (b : Int)), { st with nt := ntileAfter n s0 })
   | .lag off d =>
     (some ((List.range n).map fun i => lagCompute buf (ps + i) off d ps pe), st)
   | .lead off d =>
@@ -687,7 +710,9 @@ def frameMem (q : Query) (buf : List Row) (ps pe i j : Nat) : Bool :=
   | .range lo hi =>
     match q.ord with
     | [] => decide (ps ≤ j) && decide (j < pe)     -- no ORDER BY: all rows are peers
-    | o :: _ => rangeMem lo hi o.desc (q.rangeKeys buf) ps pe i j
+    | o :: _ =>
+      if lo.isOffset || hi.isOffset then rangeMem lo hi o.desc (q.rangeKeys buf) ps pe i j
+      else peerMem lo hi q.ord buf ps pe i j
   | .none =>
     if q.ord.isEmpty then decide (ps ≤ j) && decide (j < pe) else defaultMem q.ord buf ps pe i j
 
@@ -710,7 +735,7 @@ def specPartition (q : Query) (buf : List Row) (ps pe : Nat) : List Res :=
   (List.range n).map fun i =>
     match q.fn with
     | .agg f => aggSpec f (frameVals q buf ps pe (ps + i))
-    | .rowNumber => .int (i + 1)
+    | .rowNumber => .int ((i : Int) + 1)
     | .rank => .int ((rowsBefore q.ord buf ps pe (ps + i)).length + 1)
     | .denseRank => .int (groupsBefore q.ord buf ps pe (ps + i) + 1)
     | .percentRank =>
